@@ -357,6 +357,18 @@ func c05CheckText(c *mon.Ctx, name, text string) {
 		}
 		c.Cell("error_messages", msgClass(o.Err.Error()))
 		c.Count("rejected", 1)
+		// the same text offered again under ANOTHER script name: the
+		// diagnostic names the script being parsed
+		if len(text) < 400 {
+			other := "second copy/" + name + "l"
+			o2 := drive.Parse(other, text)
+			c.Eval(1)
+			if o2.Err == nil || o2.Stmts != nil {
+				c.Violate("reparse-differs", fmt.Sprintf("the text was rejected as %s and %s as %s\ninput %q", name, map[bool]string{true: "accepted", false: "rejected with a tree"}[o2.Err == nil], other, short(text)), cs)
+			} else if d := drive.CheckParseError(o2.Err, other, text); d != "" {
+				c.Violate("bad-parse-error", fmt.Sprintf("second parse under the name %q: %s\nerror: %v\ninput %q", other, d, o2.Err, short(text)), cs)
+			}
+		}
 		if c.WantSample() && len(text) > 8 && len(text) < 120 && c.R.Intn(20) == 0 {
 			c.Sample(map[string]any{"input": fmt.Sprintf("%q", text), "outcome": "rejected: " + o.Err.Error()})
 		}
